@@ -205,6 +205,41 @@ fn check_reads(txn: &Transaction, m: &TxnModel) -> Option<(String, String)> {
 			}
 		}
 	}
+	// bounded scans whose bounds are the keys themselves: [k1, k2) for every ordered pair (a pending
+	// write ON the end bound is outside, one on the start bound inside)
+	if expect_outcome == Outcome::Ok {
+		for lo in KEYS {
+			for hi in KEYS {
+				if lo >= hi {
+					continue;
+				}
+				let exp: Pairs = view.iter().filter(|(k, _)| k.as_slice() >= lo && k.as_slice() < hi).map(|(k, v)| (k.clone(), v.clone())).collect();
+				for fwd in [true, false] {
+					let got = match txn.range(lo, hi) {
+						Err(e) => return Some(("read-error".into(), format!("range({},{}) -> Err({e})", hex(lo), hex(hi)))),
+						Ok(mut it) => {
+							if fwd {
+								scan_fwd(&mut it)
+							} else {
+								scan_bwd(&mut it).map(|mut v| {
+									v.reverse();
+									v
+								})
+							}
+						}
+					};
+					match got {
+						Err(e) => return Some(("read-error".into(), format!("range({},{}): {e}", hex(lo), hex(hi)))),
+						Ok(got) => {
+							if got != exp {
+								return Some(("ryow-bounded-scan".into(), format!("range({},{}) {} = {}, expected {}", hex(lo), hex(hi), if fwd { "forward" } else { "backward" }, fmt_pairs(&got), fmt_pairs(&exp))));
+							}
+						}
+					}
+				}
+			}
+		}
+	}
 	None
 }
 
